@@ -74,19 +74,20 @@ Proof.
   apply IH in H. rewrite H, pending_sdo_actions. reflexivity.
 Qed.
 
-Lemma pending_sig_walk : forall fuel this sig s s', sig_walk c env fuel this sig s = Some s' -> pending s' = pending s.
+Lemma pending_sig_walk : forall fuel bound this sig s s', sig_walk c env fuel bound this sig s = Some s' -> pending s' = pending s.
 Proof.
-  induction fuel as [|f IH]; intros this sig s s' H; [discriminate|].
+  induction fuel as [|f IH]; intros bound this sig s s' H; [discriminate|].
   cbn [sig_walk] in H. destruct this as [id|]; [|inversion H; reflexivity].
   destruct (find_sgw id (sgws s)) as [w|]; [|discriminate].
-  apply IH in H. rewrite H. destruct (g_sig w =? sig); [rewrite pending_sdo_actions|]; reflexivity.
+  apply IH in H. rewrite H. destruct ((g_sig w =? sig) && (g_id w <? bound)); [rewrite pending_sdo_actions|]; [|reflexivity].
+  unfold sig_fire. destruct (g_id w <? 0); reflexivity.
 Qed.
 
 Lemma pending_dispatch_sigs : forall fuel sigs s s', dispatch_sigs c env fuel sigs s = Some s' -> pending s' = pending s.
 Proof.
   induction sigs as [|sg r IH]; intros s s' H; [inversion H; reflexivity|].
   cbn [dispatch_sigs] in H. destruct (is_watched s sg); [|eapply IH; eassumption].
-  destruct (sig_walk c env fuel (match sgws s with [] => None | h :: _ => Some (g_id h) end) sg s) as [s1|] eqn:Ew; [|discriminate].
+  destruct (sig_walk c env fuel (snext s) (match sgws s with [] => None | h :: _ => Some (g_id h) end) sg s) as [s1|] eqn:Ew; [|discriminate].
   apply IH in H. apply pending_sig_walk in Ew. congruence.
 Qed.
 
@@ -145,7 +146,8 @@ Proof.
   - eapply stick_pending; eassumption.
   - inversion H; subst. assumption.
   - inversion H; subst. assumption.
-  - eapply run_passes_pending; [|exact H]. exact Hp.
+  - destruct (run_passes fixed_cfg env fuel rk _) as [s2|] eqn:E; [|discriminate]. inversion H; subst.
+    cbn [pending up_sgws]. eapply run_passes_pending; [|exact E]. exact Hp.
 Qed.
 
 Lemma fold_sdo_op_none : forall cf env fuel ops, fold_left (sdo_op cf env fuel) ops None = None.
@@ -489,9 +491,9 @@ Proof.
   eapply keeps_trans; [exact H1|]. eapply keeps_trans; [exact H2|]. eapply IH; [exact (proj1 H2)|exact H].
 Qed.
 
-Lemma keeps_sig_walk : forall id fuel this sig s s', dead s id -> sig_walk c env fuel this sig s = Some s' -> keeps id s s'.
+Lemma keeps_sig_walk : forall id fuel bound this sig s s', dead s id -> sig_walk c env fuel bound this sig s = Some s' -> keeps id s s'.
 Proof.
-  induction fuel as [|f IH]; intros this sig s s' Hd H; [discriminate|].
+  induction fuel as [|f IH]; intros bound this sig s s' Hd H; [discriminate|].
   cbn [sig_walk] in H. destruct this as [id0|]; [|inversion H; subst; apply keeps_refl; assumption].
   destruct (find_sgw id0 (sgws s)) as [w|] eqn:Ef; [|discriminate].
   destruct (find_sgw_in _ _ _ Ef) as [Hid Hin].
@@ -499,11 +501,12 @@ Proof.
   { intros E. destruct Hd as [Hn _]. apply Hn. unfold live_ids. apply in_or_app. right. apply in_or_app. left. rewrite <- E. exact Hin. }
   set (s1 := up_cursor s (sgw_after id0 (sgws s))) in H.
   assert (H1 : keeps id s s1) by (destruct Hd as [Hn Hlt]; split; [split; [exact Hn|exact Hlt]|reflexivity]).
-  destruct (g_sig w =? sig).
-  - set (s2 := semit s1 id0 KSig EV_FIRE sig) in H.
+  destruct ((g_sig w =? sig) && (g_id w <? bound)).
+  - set (s2 := sig_fire s1 w sig) in H.
     assert (H2 : keeps id s1 s2).
-    { destruct (proj1 H1) as [Hn Hlt]. split; [split; [exact Hn|exact Hlt]|]. unfold s2. apply fires_other. exact Hw. }
-    pose proof (keeps_sdo_actions id (env (g_cb w)) s2 (proj1 H2)) as H3.
+    { destruct (proj1 H1) as [Hn Hlt]. unfold s2, sig_fire. destruct (g_id w <? 0); [apply keeps_refl; split; assumption|].
+      split; [split; [exact Hn|exact Hlt]|]. rewrite Hid. apply fires_other. exact Hw. }
+    pose proof (keeps_sdo_actions id (cb_acts env w) s2 (proj1 H2)) as H3.
     eapply keeps_trans; [exact H1|]. eapply keeps_trans; [exact H2|]. eapply keeps_trans; [exact H3|].
     eapply IH; [exact (proj1 H3)|exact H].
   - eapply keeps_trans; [exact H1|]. eapply IH; [exact (proj1 H1)|exact H].
@@ -513,8 +516,8 @@ Lemma keeps_dispatch_sigs : forall id fuel sigs s s', dead s id -> dispatch_sigs
 Proof.
   induction sigs as [|sg r IH]; intros s s' Hd H; [inversion H; subst; apply keeps_refl; assumption|].
   cbn [dispatch_sigs] in H. destruct (is_watched s sg); [|eapply IH; eassumption].
-  destruct (sig_walk c env fuel (match sgws s with [] => None | h :: _ => Some (g_id h) end) sg s) as [s1|] eqn:Ew; [|discriminate].
-  pose proof (keeps_sig_walk id _ _ _ _ _ Hd Ew) as H1.
+  destruct (sig_walk c env fuel (snext s) (match sgws s with [] => None | h :: _ => Some (g_id h) end) sg s) as [s1|] eqn:Ew; [|discriminate].
+  pose proof (keeps_sig_walk id _ _ _ _ _ _ Hd Ew) as H1.
   eapply keeps_trans; [exact H1|]. eapply IH; [exact (proj1 H1)|exact H].
 Qed.
 
@@ -569,9 +572,20 @@ Qed.
 
 (* C18_cancelled_not_invoked: once a watch is gone -- cancelled by anyone, or a deferred
    callback that has had its turn -- no later step of any iteration invokes it *)
-Lemma gone_never_invoked : forall id fuel ops s s', dead s id ->
+Lemma keeps_sgws_sub : forall id s v, dead s id -> 0 <= id ->
+  (forall x, In x (map g_id v) -> In x (map g_id (sgws s)) \/ x = INT_ID) -> keeps id s (up_sgws s v).
+Proof.
+  intros id s v [Hn Hlt] Hid Hsub. split; [split; [|exact Hlt]|reflexivity].
+  unfold live_ids in *. cbn [iows sgws dlaters drun up_sgws]. intros Hin. apply Hn.
+  apply in_app_or in Hin. apply in_or_app. destruct Hin as [Hin|Hin]; [left; exact Hin|right].
+  apply in_app_or in Hin. apply in_or_app. destruct Hin as [Hin|Hin]; [left|right; exact Hin].
+  destruct (Hsub id Hin) as [A|A]; [exact A|unfold INT_ID in A; lia].
+Qed.
+
+Lemma gone_never_invoked : forall id fuel ops s s', 0 <= id -> dead s id ->
   fold_left (sdo_op c env fuel) ops (Some s) = Some s' -> keeps id s s'.
 Proof.
+  intros id fuel ops s s' Hid. revert s s'.
   induction ops as [|o r IH]; intros s s' Hd H.
   - inversion H; subst. apply keeps_refl. assumption.
   - cbn [fold_left] in H.
@@ -582,8 +596,14 @@ Proof.
       - eapply keeps_stick; eassumption.
       - inversion E; subst. destruct Hd as [Hn Hlt]. split; [split; [exact Hn|exact Hlt]|reflexivity].
       - inversion E; subst. destruct Hd as [Hn Hlt]. split; [split; [exact Hn|exact Hlt]|reflexivity].
-      - pose proof (keeps_running id s true Hd) as H0. eapply keeps_trans; [exact H0|].
-        eapply keeps_run_passes; [exact (proj1 H0)|exact E]. }
+      - pose proof (keeps_running id s true Hd) as H0.
+        destruct (run_passes c env fuel rk _) as [s2|] eqn:Er; [|discriminate]. inversion E; subst s1.
+        assert (Ha : keeps id (up_running s true) (up_sgws (up_running s true) (remove_sgw INT_ID (sgws s) ++ [int_watch]))).
+        { apply keeps_sgws_sub; [exact (proj1 H0)|exact Hid|]. intros x Hx. rewrite map_app in Hx. apply in_app_or in Hx.
+          destruct Hx as [Hx|[Hx|[]]]; [left; eapply in_remove_sgw; exact Hx|right; symmetry; exact Hx]. }
+        pose proof (keeps_run_passes id fuel rk _ _ (proj1 Ha) Er) as Hb.
+        eapply keeps_trans; [exact H0|]. eapply keeps_trans; [exact Ha|]. eapply keeps_trans; [exact Hb|].
+        apply keeps_sgws_sub; [exact (proj1 Hb)|exact Hid|]. intros x Hx. left. eapply in_remove_sgw. exact Hx. }
     eapply keeps_trans; [exact H1|]. eapply IH; [exact (proj1 H1)|exact H].
 Qed.
 
@@ -678,6 +698,33 @@ Definition sig_quiet (a : saction) : bool :=
 
 Definition sig_event (s : sst) (w : sgw) : obs := OEv (mkE (g_id w) KSig EV_FIRE (siter s) 0 (g_sig w)).
 
+Lemma snext_scancel : forall s id, snext (scancel s id) = snext s.
+Proof.
+  intros s id. unfold scancel, evloop_cancel_io.
+  destruct (find_iow id (iows s)) as [w|].
+  - destruct (i_unbind w); cbn [slots semit up_slog up_iows];
+      destruct (nth_error (slots s) (i_slot w)); reflexivity.
+  - destruct (find_sgw id (sgws s)) as [w|].
+    + destruct (memz (g_sig w) (kpend s)); [reflexivity|]. cbn [cursor up_sgws].
+      destruct (cursor s) as [cu|]; [destruct (cu =? id)|]; destruct (g_unbind w); reflexivity.
+    + destruct (find_ltr id (dlaters s)) as [w|]; [destruct (l_unbind w); reflexivity|].
+      destruct (find_ltr id (drun s)) as [w|]; [destruct (l_unbind w); reflexivity|reflexivity].
+Qed.
+
+Lemma snext_le_action : forall c s a, snext s <= snext (sdo_action c s a).
+Proof.
+  intros c s a. destruct a as [ub cb|fd cond ub cb|sig ub cb|id|e|sig| |]; cbn [sdo_action]; try (cbn; lia).
+  - unfold evloop_io. destruct (find_free (slots s) 0); cbn; lia.
+  - rewrite snext_scancel. lia.
+  - destruct (is_watched s sig); cbn; lia.
+Qed.
+
+Lemma snext_le_actions : forall c l s, snext s <= snext (sdo_actions c s l).
+Proof.
+  intros c l. induction l as [|a r IH]; intros s; [cbn; lia|]. cbn [sdo_actions fold_left].
+  pose proof (snext_le_action c s a). specialize (IH (sdo_action c s a)). unfold sdo_actions in IH. lia.
+Qed.
+
 Section Delivery.
 Variable c : cfg.
 Variable env : Z -> list saction.
@@ -733,40 +780,54 @@ Qed.
 
 (* the walk from the watch after [pre] to the end of the list invokes exactly the watchers of
    [sig] among the remaining ones, in list order, and changes nothing else that matters *)
-Lemma sig_walk_all : forall post pre w fuel sig s,
+Lemma sig_walk_all : forall post pre w fuel bound sig s,
   sgws s = pre ++ w :: post -> NoDup (map g_id (sgws s)) ->
+  (forall v, In v (sgws s) -> 0 <= g_id v < bound) ->
   (forall v, In v (sgws s) -> forallb sig_quiet (env (g_cb v)) = true) ->
   (length post + 1 < fuel)%nat ->
-  exists s', sig_walk c env fuel (Some (g_id w)) sig s = Some s' /\
+  exists s', sig_walk c env fuel bound (Some (g_id w)) sig s = Some s' /\
              slog s' = rev (map (sig_event s) (filter (fun v => g_sig v =? sig) (w :: post))) ++ slog s /\
-             sgws s' = sgws s /\ siter s' = siter s.
+             sgws s' = sgws s /\ siter s' = siter s /\ snext s <= snext s'.
 Proof.
-  induction post as [|n post IH]; intros pre w fuel sig s Hl Hnd Hq Hf.
+  induction post as [|n post IH]; intros pre w fuel bound sig s Hl Hnd Hbd Hq Hf.
   - destruct fuel as [|[|f]]; try (cbn in Hf; lia). cbn [sig_walk].
     rewrite Hl in Hnd. destruct (nodup_mid pre w [] Hnd) as [Hn _].
     rewrite Hl, (find_sgw_mid pre w [] Hn), (sgw_after_mid pre w [] Hn). rewrite <- Hl.
     assert (Hqw : forallb sig_quiet (env (g_cb w)) = true) by (apply Hq; rewrite Hl; apply in_or_app; right; left; reflexivity).
+    assert (Hbw0 : 0 <= g_id w < bound) by (apply Hbd; rewrite Hl; apply in_or_app; right; left; reflexivity).
+    assert (Hbw : (g_id w <? bound) = true) by (apply Z.ltb_lt; lia).
+    assert (Hnn : (g_id w <? 0) = false) by (apply Z.ltb_ge; lia).
+    rewrite Hbw, andb_true_r. unfold sig_fire, cb_acts. rewrite Hnn.
     cbn [filter]. destruct (g_sig w =? sig) eqn:E.
     + destruct (quiet_actions (env (g_cb w)) (semit (up_cursor s None) (g_id w) KSig EV_FIRE sig) Hqw) as [A1 [A2 [A3 A4]]].
       rewrite A2. cbn [cursor semit up_slog up_cursor]. eexists. split; [reflexivity|].
-      rewrite A3, A1, A4. apply Z.eqb_eq in E. subst sig. repeat split; reflexivity.
-    + cbn [cursor up_cursor]. eexists. split; [reflexivity|]. repeat split; reflexivity.
+      rewrite A3, A1, A4. apply Z.eqb_eq in E. subst sig.
+      split; [reflexivity|split; [reflexivity|split; [reflexivity|]]].
+      exact (snext_le_actions c (env (g_cb w)) (semit (up_cursor s None) (g_id w) KSig EV_FIRE (g_sig w))).
+    + cbn [cursor up_cursor]. eexists. split; [reflexivity|]. repeat split; try reflexivity.
   - destruct fuel as [|f]; [cbn in Hf; lia|]. cbn [sig_walk].
     pose proof Hnd as Hnd0. rewrite Hl in Hnd. destruct (nodup_mid pre w (n :: post) Hnd) as [Hn Hnd2].
     rewrite Hl, (find_sgw_mid pre w (n :: post) Hn), (sgw_after_mid pre w (n :: post) Hn). rewrite <- Hl.
     assert (Hqw : forallb sig_quiet (env (g_cb w)) = true) by (apply Hq; rewrite Hl; apply in_or_app; right; left; reflexivity).
     assert (Hl2 : pre ++ w :: n :: post = (pre ++ [w]) ++ n :: post) by (rewrite <- app_assoc; reflexivity).
+    assert (Hbw0 : 0 <= g_id w < bound) by (apply Hbd; rewrite Hl; apply in_or_app; right; left; reflexivity).
+    assert (Hbw : (g_id w <? bound) = true) by (apply Z.ltb_lt; lia).
+    assert (Hnn : (g_id w <? 0) = false) by (apply Z.ltb_ge; lia).
+    rewrite Hbw, andb_true_r. unfold sig_fire, cb_acts. rewrite Hnn.
     cbn [filter]. destruct (g_sig w =? sig) eqn:E.
     + destruct (quiet_actions (env (g_cb w)) (semit (up_cursor s (Some (g_id n))) (g_id w) KSig EV_FIRE sig) Hqw) as [A1 [A2 [A3 A4]]].
       rewrite A2. cbn [cursor semit up_slog up_cursor].
       set (s2 := sdo_actions c (semit (up_cursor s (Some (g_id n))) (g_id w) KSig EV_FIRE sig) (env (g_cb w))) in *.
       assert (G2 : sgws s2 = sgws s) by exact A1.
-      destruct (IH (pre ++ [w]) n f sig s2) as [s' [W [Lg [Sg It]]]].
+      destruct (IH (pre ++ [w]) n f bound sig s2) as [s' [W [Lg [Sg [It Sn]]]]].
       * rewrite G2, Hl. exact Hl2.
       * rewrite G2. exact Hnd0.
+      * rewrite G2. exact Hbd.
       * rewrite G2. exact Hq.
       * cbn [length] in Hf. lia.
-      * exists s'. split; [exact W|]. split; [|split; [rewrite Sg; exact G2|rewrite It, A4; reflexivity]].
+      * exists s'. split; [exact W|]. split; [|split; [rewrite Sg; exact G2|split; [rewrite It, A4; reflexivity|]]].
+        2:{ pose proof (snext_le_actions c (env (g_cb w)) (semit (up_cursor s (Some (g_id n))) (g_id w) KSig EV_FIRE sig)) as Hm.
+            fold s2 in Hm. cbn [snext semit up_slog up_cursor] in Hm. lia. }
         rewrite Lg, A3. cbn [slog semit up_slog up_cursor map rev].
         apply Z.eqb_eq in E. subst sig.
         assert (Ev : map (sig_event s2) (filter (fun v => g_sig v =? g_sig w) (n :: post)) =
@@ -774,12 +835,13 @@ Proof.
         { apply map_ext. intros v. unfold sig_event. rewrite A4. reflexivity. }
         rewrite Ev. unfold sig_event at 3. rewrite <- app_assoc. reflexivity.
     + cbn [cursor up_cursor].
-      destruct (IH (pre ++ [w]) n f sig (up_cursor s (Some (g_id n)))) as [s' [W [Lg [Sg It]]]].
+      destruct (IH (pre ++ [w]) n f bound sig (up_cursor s (Some (g_id n)))) as [s' [W [Lg [Sg [It Sn]]]]].
       * cbn [sgws up_cursor]. rewrite Hl. exact Hl2.
       * exact Hnd0.
+      * exact Hbd.
       * exact Hq.
       * cbn [length] in Hf. lia.
-      * exists s'. split; [exact W|]. split; [exact Lg|split; [exact Sg|exact It]].
+      * exists s'. split; [exact W|]. split; [exact Lg|split; [exact Sg|split; [exact It|exact Sn]]].
 Qed.
 
 End Delivery.
@@ -800,23 +862,26 @@ Definition invoked (s : sst) (sigs : list Z) : list obs :=
 
 Lemma dispatch_sigs_all : forall sigs fuel s,
   NoDup (map g_id (sgws s)) ->
+  (forall v, In v (sgws s) -> 0 <= g_id v < snext s) ->
   (forall v, In v (sgws s) -> forallb sig_quiet (env (g_cb v)) = true) ->
   (length (sgws s) + 1 < fuel)%nat ->
   exists s', dispatch_sigs c env fuel sigs s = Some s' /\
              slog s' = rev (invoked s sigs) ++ slog s /\ sgws s' = sgws s /\ siter s' = siter s.
 Proof.
-  induction sigs as [|sg r IH]; intros fuel s Hnd Hq Hf.
+  induction sigs as [|sg r IH]; intros fuel s Hnd Hbd Hq Hf.
   - exists s. repeat split; reflexivity.
   - cbn [dispatch_sigs]. unfold is_watched. destruct (existsb (fun w => g_sig w =? sg) (sgws s)) eqn:Ew.
     + destruct (sgws s) as [|h t] eqn:El; [discriminate|].
-      destruct (sig_walk_all c env t [] h fuel sg s) as [s1 [W [Lg [Sg It]]]].
+      destruct (sig_walk_all c env t [] h fuel (snext s) sg s) as [s1 [W [Lg [Sg [It Sn]]]]].
       * rewrite El. reflexivity.
       * rewrite El. exact Hnd.
+      * rewrite El. exact Hbd.
       * rewrite El. exact Hq.
       * cbn [length] in Hf. lia.
       * rewrite W.
         destruct (IH fuel s1) as [s' [D [Lg2 [Sg2 It2]]]].
         -- rewrite Sg, El. exact Hnd.
+        -- rewrite Sg, El. intros v Hv. specialize (Hbd v Hv). lia.
         -- rewrite Sg, El. exact Hq.
         -- rewrite Sg, El. exact Hf.
         -- exists s'. split; [exact D|]. split; [|split; [congruence|congruence]].
@@ -826,7 +891,7 @@ Proof.
                                       flat_map (fun sig => map (sig_event s) (filter (fun v => g_sig v =? sig) (h :: t))) sigs0).
            { intros sigs0. apply flat_map_ext. intros a. apply map_ext. intros v. unfold sig_event. rewrite It. reflexivity. }
            rewrite Ev. reflexivity.
-    + destruct (IH fuel s Hnd Hq Hf) as [s' [D [Lg [Sg It]]]].
+    + destruct (IH fuel s Hnd Hbd Hq Hf) as [s' [D [Lg [Sg It]]]].
       exists s'. split; [exact D|]. split; [|split; assumption].
       rewrite Lg. unfold invoked. cbn [flat_map]. rewrite (not_watched_filter _ _ Ew). reflexivity.
 Qed.
@@ -836,13 +901,14 @@ Qed.
    for callbacks that do not themselves cancel or register signal watches *)
 Theorem dispatch_invokes_all : forall fuel s,
   NoDup (map g_id (sgws s)) ->
+  (forall v, In v (sgws s) -> 0 <= g_id v < snext s) ->
   (forall v, In v (sgws s) -> forallb sig_quiet (env (g_cb v)) = true) ->
   (length (sgws s) + 1 < fuel)%nat ->
   exists s', dispatch_signals c env fuel s = Some s' /\
              slog s' = rev (invoked s (sort_z (pending s))) ++ slog s /\ pending s' = [] /\ sgws s' = sgws s.
 Proof.
-  intros fuel s Hnd Hq Hf. unfold dispatch_signals.
-  destruct (dispatch_sigs_all (sort_z (pending s)) fuel (up_pending s []) Hnd Hq Hf) as [s' [D [Lg [Sg It]]]].
+  intros fuel s Hnd Hbd Hq Hf. unfold dispatch_signals.
+  destruct (dispatch_sigs_all (sort_z (pending s)) fuel (up_pending s []) Hnd Hbd Hq Hf) as [s' [D [Lg [Sg It]]]].
   exists s'. split; [exact D|]. split; [exact Lg|]. split; [|exact Sg].
   apply pending_dispatch_sigs in D. exact D.
 Qed.
